@@ -38,6 +38,37 @@ func Check(v any) error {
 		return errors.New("jsonapi: ID field's api tag is empty")
 	}
 
+	if idField.Type.Kind() != reflect.String {
+		return errors.New("jsonapi: ID field is not a string")
+	}
+
+	if idField.Tag.Get("json") != "id" {
+		return errors.New("jsonapi: ID field's json tag is not \"id\"")
+	}
+
+	// Check the names of the fields
+	names := map[string]bool{}
+
+	for i := 0; i < value.NumField(); i++ {
+		sf := value.Type().Field(i)
+		apiTag := sf.Tag.Get("api")
+
+		if sf.Name == "ID" || (apiTag != "attr" && strings.Split(apiTag, ",")[0] != "rel") {
+			continue
+		}
+
+		name := sf.Tag.Get("json")
+		if name == "" || name == "id" || names[name] {
+			return fmt.Errorf(
+				"jsonapi: json tag of field %q of type %q is empty or already used",
+				sf.Name,
+				resType,
+			)
+		}
+
+		names[name] = true
+	}
+
 	// Check attributes
 	for i := 0; i < value.NumField(); i++ {
 		sf := value.Type().Field(i)
@@ -76,10 +107,8 @@ func Check(v any) error {
 	for i := 0; i < value.NumField(); i++ {
 		sf := value.Type().Field(i)
 
-		if strings.HasPrefix(sf.Tag.Get("api"), "rel,") {
-			s := strings.Split(sf.Tag.Get("api"), ",")
-
-			if len(s) < 2 || len(s) > 3 {
+		if s := strings.Split(sf.Tag.Get("api"), ","); s[0] == "rel" {
+			if len(s) < 2 || len(s) > 3 || s[1] == "" {
 				return fmt.Errorf(
 					"jsonapi: api tag of relationship %q of struct %q is invalid",
 					sf.Name,
